@@ -69,10 +69,19 @@ type State struct {
 	frontier string
 	defers   []deferEntry
 	dead     bool
+	// eqFacts: term -> numeral it is known to equal on this path (from taken `x == const` branches of switches);
+	// used only to skip proof goals whose guard names a different constant (an optimisation, never an assumption)
+	eqFacts map[string]string
 }
 
 func (s *State) clone() *State {
 	n := &State{reach: s.reach, frontier: s.frontier, dead: s.dead}
+	if len(s.eqFacts) > 0 {
+		n.eqFacts = make(map[string]string, len(s.eqFacts))
+		for k, v := range s.eqFacts {
+			n.eqFacts[k] = v
+		}
+	}
 	n.env = make(map[ssa.Value]Val, len(s.env)+8)
 	for k, v := range s.env {
 		n.env[k] = v
@@ -119,6 +128,7 @@ type Obligation struct {
 
 // Run is the verification of one function under contract.
 type Run struct {
+	defs       map[string]string // name -> defining term of define-fun'ed constants
 	eng        *Eng
 	top        *ssa.Function
 	spec       *FuncSpec
@@ -181,6 +191,10 @@ func (r *Run) define(prefix, sort, expr string) string {
 		return r.constOf(prefix, sort, expr)
 	}
 	n := r.fresh(prefix)
+	if r.defs == nil {
+		r.defs = map[string]string{}
+	}
+	r.defs[n] = expr
 	r.emit(fmt.Sprintf("(define-fun %s () %s %s)", n, sort, expr))
 	return n
 }
@@ -708,6 +722,11 @@ func (r *Run) mergeVal(c string, a, b Val) (Val, bool) {
 func (r *Run) merge2(a, b *State) *State {
 	c := a.reach // condition selecting a's values
 	out := a
+	for k, v := range a.eqFacts {
+		if b.eqFacts[k] != v {
+			delete(out.eqFacts, k)
+		}
+	}
 	// deterministic order: the names of fresh constants depend on it
 	envKeys := make([]ssa.Value, 0, len(a.env))
 	for k := range a.env {
